@@ -127,6 +127,9 @@ func (pdb *pgDb) stop(ctx context.Context) error {
 
 func (pdb *pgDb) Abort(ctx context.Context) {
 	logg.InfoCtxf(ctx, "aborting tx", "tx", pdb.tx)
+	if pdb.tx == nil {
+		return
+	}
 	pdb.tx.Rollback(ctx)
 	pdb.tx = nil
 }
